@@ -23,6 +23,7 @@ LAST_INFO = None
 PROG = sl("prog", "await_child_action")
 L = int(sl("L", 3))
 CUT = sl("cut")  # partition on the cut point
+GAP = sl("gap")  # partition on the position of the idle gap (aged_same)
 P = progs.PROGRAMS[PROG]
 NLET = len(P["letters"])
 
@@ -144,7 +145,7 @@ def continues_same(cut: int, s0: int, s1: int, s2: int, s3: int, p0: int, p1: in
 def aged_same(g: int, s0: int, s1: int, s2: int, s3: int, p0: int, p1: int, p2: int, p3: int, c0: int, c1: int) -> bool:
     """
     The same history with a 10 s idle gap before event g (after which long-finished flow instances are discarded) produces the same outgoing events as without the gap.
-    pre: 0 <= g < L and c09._pre([s0, s1, s2, s3][:L], [p0, p1, p2, p3][:L], [c0, c1], L)
+    pre: 0 <= g < L and (GAP is None or g == int(GAP)) and c09._pre([s0, s1, s2, s3][:L], [p0, p1, p2, p3][:L], [c0, c1], L)
     pre: (L > 1 or (s1 == 0 and p1 == 0)) and (L > 2 or (s2 == 0 and p2 == 0)) and (L > 3 or (s3 == 0 and p3 == 0))
     post: _
     """
@@ -302,10 +303,11 @@ SPEC = {
                    {"slice": {"prog": "vars_cmp", "L": 2}, "args": dict(cut=0, s0=2, s1=1, s2=0, s3=0, p0=0, p1=0, p2=0, p3=0, c0=0, c1=0)},
                    {"slice": {"prog": "vars_intkeys", "L": 2}, "args": dict(cut=0, s0=1, s1=2, s2=0, s3=0, p0=0, p1=0, p2=0, p3=0, c0=0, c1=0)},
                    {"slice": {"prog": "when_scope", "L": 3}, "args": dict(cut=1, s0=4, s1=2, s2=5, s3=0, p0=0, p1=0, p2=0, p3=0, c0=0, c1=0)}]},
-        {"fn": "continues_same", "tiers": ("thorough",), "slices": _sl(SER, 3, (0, 1, 2)) + _sl(["vars_kinds", "when_scope", "activate_two_parents", "await_child_action"], 4, (1, 2, 3)), "tcond": 3000, "tpath": 60,
-         "bound": "prefix + L=3, every cut; L=4 on 4 programs"},
+        {"fn": "continues_same", "tiers": ("thorough",), "slices": _sl(SER, 3, (0, 1, 2)) + _sl(["vars_kinds", "finish_main"], 4, (2, 3)), "tcond": 3000, "tpath": 60,
+         "bound": "prefix + L=3, every cut; L=4 on 2 programs with late cuts"},
         {"fn": "aged_same", "tiers": ("quick",), "slices": _sl(["await_child_action", "activate_two_parents", "when_scope", "activate_wait", "two_children", "finish_main", "shared_action_started"], 2), "tcond": 900, "tpath": 60, "bound": "prefix + L=2, one gap"},
-        {"fn": "aged_same", "tiers": ("thorough",), "slices": _sl(SER, 3) + _sl(["activate_two_parents", "when_scope", "await_child_action"], 4), "tcond": 3000, "tpath": 60, "bound": "prefix + L=3; L=4 on 3 programs"},
+        {"fn": "aged_same", "tiers": ("thorough",), "slices": [{"prog": n, "L": 3, "gap": g} for n in SER for g in (0, 1, 2) if n not in ("activate_two_parents", "grandchildren")]
+            + [{"prog": n, "L": 2, "gap": g} for n in ("activate_two_parents", "grandchildren") for g in (0, 1)], "tcond": 3000, "tpath": 60, "bound": "prefix + L=3 (two heavy programs: L=2), one gap at any position"},
         {"fn": "roundtrip_values", "slices": [{}], "tcond": 600, "tpath": 30, "bound": "10 x 10 kinds",
          "smoke": [{"slice": {}, "args": dict(k0=5, k1=3, x=1, y=2)}, {"slice": {}, "args": dict(k0=4, k1=6, x=0, y=3)}]},
         {"fn": "cut_twin", "expect": "counterexample", "slices": [{"prog": "await_child_action", "L": 2}], "tcond": 300, "tpath": 60, "bound": "twin"},
